@@ -76,3 +76,8 @@ package fractal
 // the relay remembers only quality tasks for late subscribers (a targeted proof or signature request is never replayed)
 //@ func (*RemoteSuperior).requestProcessor
 //@   assert-at store RemoteSuperior.latestTask only-a-quality-task-is-kept-for-late-subscribers: lastresult("MsgType") == protocol.MsgTypeRequestQualities && value == msg
+
+// a message handed to the writer is either queued or the context is done: the hand-over waits, it never falls through
+//@ func (*MessageSender).SafeSendChannel
+//@   attr blocking-select
+//@   assert-at send the-message-given-is-the-message-queued: value == msg && chan == sender.messageCh
